@@ -194,7 +194,58 @@ Section E2E.
 
   Notation st_cats := (st_cats F T D).
   Notation st_strings := (st_strings F T D).
+  Notation st_raw := (st_raw F T D).
+  Notation final_cats := (final_cats F T D).
   Notation st_seen := (st_seen F T D).
+
+  (* the key -> set of path texts *)
+  Definition raw_has (r : list (str * list str)) (k x : str) : Prop :=
+    exists xs, alist_get k r = Some xs /\ In x xs.
+
+  Lemma raw_add_new k x r : raw_has (raw_add k x r) k x.
+  Proof.
+    unfold raw_has. induction r as [|[k0 xs] t IH]; cbn [raw_add].
+    - exists [x]. cbn [alist_get]. rewrite str_eqb_refl. split; [reflexivity|now left].
+    - destruct (str_eqb_spec k k0) as [E|E].
+      + subst k0. cbn [alist_get]. rewrite str_eqb_refl. eexists. split; [reflexivity|].
+        destruct (mem_str x xs) eqn:Em; [now apply mem_str_In|apply in_or_app; right; now left].
+      + cbn [alist_get]. destruct (str_eqb_spec k k0); [congruence|]. exact IH.
+  Qed.
+
+  Lemma alist_get_cons {V} k k0 (v0 : V) t :
+    alist_get k ((k0, v0) :: t) = if str_eqb k k0 then Some v0 else alist_get k t.
+  Proof. reflexivity. Qed.
+
+  Lemma raw_add_mono k x r k' x' : raw_has r k' x' -> raw_has (raw_add k x r) k' x'.
+  Proof.
+    unfold raw_has. induction r as [|[k0 xs] t IH]; cbn [raw_add]; intros [ys [H1 H2]]; [discriminate|].
+    rewrite alist_get_cons in H1. destruct (str_eqb_spec k k0) as [E|E].
+    - subst k0. rewrite alist_get_cons. destruct (str_eqb_spec k' k) as [E'|E'].
+      + injection H1 as <-. eexists. split; [reflexivity|].
+        destruct (mem_str x xs); [exact H2|apply in_or_app; now left].
+      + exists ys. split; assumption.
+    - rewrite alist_get_cons. destruct (str_eqb_spec k' k0) as [E'|E'].
+      + exists ys. split; assumption.
+      + apply IH. exists ys. split; assumption.
+  Qed.
+
+  Lemma raw_add_only k x r k' x' : raw_has (raw_add k x r) k' x' -> raw_has r k' x' \/ (k' = k /\ x' = x).
+  Proof.
+    unfold raw_has. induction r as [|[k0 xs] t IH]; cbn [raw_add]; intros [ys [H1 H2]].
+    - rewrite alist_get_cons in H1. destruct (str_eqb_spec k' k) as [E|E]; [|discriminate]. injection H1 as <-.
+      destruct H2 as [<-|[]]. right. now split.
+    - destruct (str_eqb_spec k k0) as [E|E].
+      + subst k0. rewrite alist_get_cons in H1. rewrite alist_get_cons. destruct (str_eqb_spec k' k) as [E'|E'].
+        * injection H1 as <-. subst k'. destruct (mem_str x xs).
+          -- left. exists xs. split; [reflexivity|exact H2].
+          -- apply in_app_or in H2. destruct H2 as [H2|[<-|[]]].
+             ++ left. exists xs. split; [reflexivity|exact H2].
+             ++ right. now split.
+        * left. exists ys. split; assumption.
+      + rewrite alist_get_cons in H1. rewrite alist_get_cons. destruct (str_eqb_spec k' k0) as [E'|E'].
+        * left. exists ys. split; assumption.
+        * apply IH. exists ys. split; assumption.
+  Qed.
 
   Definition add_keys (K : list str) (ks : list str) : list str :=
     fold_left (fun K k => if mem_str k K then K else K ++ [k]) ks K.
@@ -333,10 +384,12 @@ Section E2E.
       inv_cats : forall k vs, In (k, vs) (st_cats st) -> In k rnames /\ Forall (Lv k) vs;
       inv_str : forall k, In k (st_strings st) -> textlevel k;
       inv_seen : forall k x, In (k, x) (st_seen st) ->
-        exists v, Pv k v /\ x = show hive v /\ exists vs, In (k, vs) (st_cats st) /\ existsb (veqb (rv v)) vs = true }.
+        exists v, Pv k v /\ x = show hive v /\ exists vs, In (k, vs) (st_cats st) /\ existsb (veqb (rv v)) vs = true;
+      inv_raw1 : forall k x, In (k, x) (st_seen st) -> raw_has (st_raw st) k x;
+      inv_raw2 : forall k x, raw_has (st_raw st) k x -> exists v, Pv k v /\ x = show hive v }.
 
     Lemma Inv0 : Inv st0.
-    Proof. split; cbn; intros; tauto. Qed.
+    Proof. split; cbn; intros; try tauto. destruct H as [xs [H _]]. discriminate. Qed.
 
     Lemma add_hit_step st k v : Inv st -> In k rnames -> Pv k v ->
       exists st', add_hit pm (Ok st) (k, show hive v) = Ok st' /\ Inv st' /\
@@ -357,9 +410,9 @@ Section E2E.
         { destruct (mem_str k (st_strings st)) eqn:Em.
           - apply (Hb2 k v); [|exact Hv]. apply (inv_str st HI). now apply mem_str_In.
           - now apply Ha. }
-        rewrite Hval. eexists. split; [reflexivity|]. cbn [Partition.st_cats Partition.st_strings Partition.st_seen].
+        rewrite Hval. eexists. split; [reflexivity|]. cbn [Partition.st_cats Partition.st_strings Partition.st_seen Partition.st_raw].
         split; [|split; [|split]].
-        + split; cbn [Partition.st_cats Partition.st_strings Partition.st_seen].
+        + split; cbn [Partition.st_cats Partition.st_strings Partition.st_seen Partition.st_raw].
           * intros k' vs' Hin. apply cats_add_In in Hin.
             destruct Hin as [Hin|[-> [-> | [vs0 [Hin [-> | ->]]]]]].
             -- exact (inv_cats st HI _ _ Hin).
@@ -374,6 +427,12 @@ Section E2E.
             -- exists v. split; [exact Hv|]. split; [reflexivity|]. apply cats_add_added.
             -- destruct (inv_seen st HI _ _ Hin) as [v' [H1 [H2 [vs [H3 H4]]]]].
                exists v'. split; [exact H1|]. split; [exact H2|]. now apply (cats_add_mono k (rv v) _ k' vs).
+          * intros k' x [E|Hin].
+            -- injection E as <- <-. apply raw_add_new.
+            -- apply raw_add_mono. exact (inv_raw1 st HI _ _ Hin).
+          * intros k' x Hr. apply raw_add_only in Hr. destruct Hr as [Hr|[-> ->]].
+            -- exact (inv_raw2 st HI _ _ Hr).
+            -- now exists v.
         + intros y Hy. now right.
         + now left.
         + apply cats_add_keys.
@@ -498,6 +557,15 @@ Section E2E.
       { pose proof (Ha k v' Hv') as H1. rewrite <- Ex', (Ha k v Hv) in H1. now injection H1. }
       rewrite Erv in Hex.
       assert (vs' = vs) by (eapply NoDup_fst_unique; [rewrite Hc3; exact rn_nodup|exact Hin'|exact Hin]). subst vs'.
+      assert (Eval : (if forallb is_vstr vs then Some (VStr (show hive v)) else Some (rv v)) = Some (rv v)).
+      { destruct (forallb is_vstr vs) eqn:Ef; [|reflexivity]. f_equal.
+        pose proof Hex as Hex2. apply existsb_exists in Hex2. destruct Hex2 as [y [Hy Hey]].
+        rewrite forallb_forall in Ef. pose proof (Ef y Hy) as Hys.
+        rewrite Forall_forall in Hvs. destruct (Hvs y Hy) as [v2 [Hv2 Ey]]. subst y.
+        pose proof (Hc k v v2 Hv Hv2 Hey) as E2. rewrite <- E2 in Hys.
+        pose proof (Hb2 k v (Hb1 k v Hv Hys) Hv) as E3.
+        unfold Partition.val_to_num, Partition.parse_with_meta in E3. now injection E3. }
+      rewrite Eval.
       destruct (index_of_some _ _ _ Hex) as [j Hj]. rewrite Hj.
       destruct (index_of_nth _ _ _ _ Hj) as [y [Hy Hey]]. rewrite Hy. cbn [option_map].
       assert (Hly : Lv k y). { rewrite Forall_forall in Hvs. apply Hvs. eapply nth_error_In. exact Hy. }
@@ -570,6 +638,38 @@ Section E2E.
     Variable ord : list str -> list str.
     Hypothesis Hord : forall l x, In x (ord l) <-> In x l.
 
+    Lemma text_rv k v : textlevel k -> Pv k v -> rv v = VStr (show hive v).
+    Proof.
+      intros Ht Hv. pose proof (Hb2 k v Ht Hv) as E.
+      unfold Partition.val_to_num, Partition.parse_with_meta in E. now injection E.
+    Qed.
+
+    Lemma final_cats_ok st key : Inv st -> map fst (st_cats st) = rnames ->
+      (forall kx, In kx (hits_of key) -> In kx (st_seen st)) -> cats_ok (final_cats st) key.
+    Proof.
+      intros HI Hfst Hseen. split; [|split].
+      - intros k vs Hin. unfold Partition.final_cats in Hin. apply in_map_iff in Hin.
+        destruct Hin as [[k0 vs0] [E Hin0]]. cbn [fst snd] in E. injection E as <- <-.
+        destruct (inv_cats st HI _ _ Hin0) as [Hk Hvs0]. split; [exact Hk|].
+        destruct (mem_str k0 (st_strings st)) eqn:Em; [|exact Hvs0].
+        apply Forall_forall. intros y Hy. apply in_map_iff in Hy. destruct Hy as [x [<- Hx]].
+        destruct (alist_get k0 (st_raw st)) as [xs|] eqn:Er; [|destruct Hx].
+        destruct (inv_raw2 st HI k0 x (ex_intro _ xs (conj Er Hx))) as [v [Hv ->]]. exists v. split; [exact Hv|].
+        symmetry. apply (text_rv k0); [|exact Hv]. apply (inv_str st HI). now apply mem_str_In.
+      - intros [k x] Hkx. pose proof (Hseen _ Hkx) as Hs.
+        destruct (inv_seen st HI _ _ Hs) as [v [Hv [Ex [vs0 [Hin0 Hex]]]]]. exists v. cbn [fst snd].
+        split; [exact Hv|]. split; [exact Ex|].
+        destruct (mem_str k (st_strings st)) eqn:Em.
+        + eexists. split.
+          * unfold Partition.final_cats. apply in_map_iff. exists (k, vs0). cbn [fst snd]. rewrite Em. split; [reflexivity|exact Hin0].
+          * destruct (inv_raw1 st HI _ _ Hs) as [xs [Er Hx]]. rewrite Er. apply existsb_exists.
+            exists (VStr x). split; [now apply in_map|].
+            rewrite (text_rv k v); [|apply (inv_str st HI); now apply mem_str_In|exact Hv]. rewrite <- Ex. apply veqb_refl.
+        + exists vs0. split; [|exact Hex].
+          unfold Partition.final_cats. apply in_map_iff. exists (k, vs0). cbn [fst snd]. rewrite Em. split; [reflexivity|exact Hin0].
+      - unfold Partition.final_cats. rewrite map_map. cbn [fst]. exact Hfst.
+    Qed.
+
     Lemma cats_of_dataset (files : list (str * list row)) : files <> [] -> Forall file_ok files ->
       exists cats, paths_to_cats pm (map fst files) (ord (dedup_str (map strip_tail (map fst files))))
                    = Ok (if hive then Hive else Drill, cats) /\
@@ -609,8 +709,8 @@ Section E2E.
       rewrite Edirs. rewrite combine_map_self.
       destruct (fold_dirs keys Hkeys st0 Inv0 (or_introl eq_refl)) as [st' [Efold [HI [_ [Hseen Hkeys']]]]].
       assert (Hfst : map fst (st_cats st') = rnames) by (destruct Hkeys' as [H|[H _]]; [exact H|congruence]).
-      assert (Hcats : forall key i, key_ok key -> In (rel_path hive names key (part_name i)) paths -> cats_ok (st_cats st') key).
-      { intros key i Hk Hin. split; [exact (inv_cats st' HI)|]. split; [|exact Hfst].
+      assert (Hcats : forall key i, key_ok key -> In (rel_path hive names key (part_name i)) paths -> cats_ok (final_cats st') key).
+      { intros key i Hk Hin. apply final_cats_ok; [exact HI|exact Hfst|].
         intros kx Hkx.
         assert (Hdin : In (dir_path hive names key) dirs).
         { apply Hdirs. exists (rel_path hive names key (part_name i)). split; [exact Hin|]. symmetry. apply (Hd3 key i Hk). }
@@ -619,12 +719,10 @@ Section E2E.
         (* the two keys have the same directory, hence the same hits *)
         assert (Ehits : hits_of key' = hits_of key).
         { pose proof (Hd1 key' Hk') as H1. rewrite Edp, (Hd1 key Hk) in H1. now injection H1. }
-        destruct kx as [k x].
-        assert (Hs : In (k, x) (st_seen st')) by (apply (Hseen key'); [exact Hk'in|now rewrite Ehits]).
-        destruct (inv_seen st' HI _ _ Hs) as [v [H1 [H2 H3]]]. exists v. cbn [fst snd]. auto. }
-      exists (st_cats st'). split; [|exact Hcats].
+        apply (Hseen key'); [exact Hk'in|now rewrite Ehits]. }
+      exists (final_cats st'). split; [|exact Hcats].
       assert (E1 : path_to_cats hive pm (map (fun key => (dir_path hive names key, split_on c_slash (dir_path hive names key))) keys)
-                   = Ok (st_cats st')).
+                   = Ok (final_cats st')).
       { unfold Partition.path_to_cats. rewrite Efold. reflexivity. }
       destruct (Bool.bool_dec hive true) as [Eh|Eh].
       - rewrite Eh in E1 |- *. rewrite E1. reflexivity.
